@@ -254,10 +254,12 @@ pub fn gen_project(d: &Data, r: &mut Rng, bad: Option<&str>) -> Project {
     // optional deromaniser-only alias on root tags
     let mut alias_files = BTreeMap::new();
     let with_alias = r.chance(1, 3);
+    // two alias files may share their file name and differ in their directory
+    let (rom, leafrom) = if r.chance(1, 4) { ("west/rom", "east/rom") } else { ("rom", "leafrom") };
     if with_alias {
         let n = r.range(1, 2);
         let into: Vec<String> = (0..n).map(|_| r.pick(&crate::gen::ALIAS_INTO).to_string()).collect();
-        alias_files.insert("rom".to_string(), (into, vec![]));
+        alias_files.insert(rom.to_string(), (into, vec![]));
     }
     let mut tags: Vec<Tag> = Vec::new();
     for ti in 0..ntags {
@@ -273,7 +275,7 @@ pub fn gen_project(d: &Data, r: &mut Rng, bad: Option<&str>) -> Project {
         } else {
             vec![]
         };
-        let alias = if with_alias && ((parent.is_none() && r.chance(3, 4)) || (parent.is_some() && r.chance(1, 5))) { Some("rom".to_string()) } else { None };
+        let alias = if with_alias && ((parent.is_none() && r.chance(3, 4)) || (parent.is_some() && r.chance(1, 5))) { Some(rom.to_string()) } else { None };
         let ne = if r.chance(1, 10) { r.range(4, 5) } else { r.range(1, 3) };
         let mut entries = Vec::new();
         for _ in 0..ne {
@@ -308,8 +310,8 @@ pub fn gen_project(d: &Data, r: &mut Rng, bad: Option<&str>) -> Project {
             let n = r.range(1, 2);
             let into: Vec<String> = if r.chance(1, 2) { vec![r.pick(&crate::gen::ALIAS_INTO).to_string()] } else { vec![] };
             let from: Vec<String> = (0..n).map(|_| r.pick(&crate::gen::ALIAS_FROM).to_string()).collect();
-            alias_files.insert("leafrom".to_string(), (into, from));
-            tags[li].alias = Some("leafrom".to_string());
+            alias_files.insert(leafrom.to_string(), (into, from));
+            tags[li].alias = Some(leafrom.to_string());
         }
     }
     // the config lists tags in a random order (a child may precede its parent)
@@ -347,6 +349,10 @@ pub fn gen_project(d: &Data, r: &mut Rng, bad: Option<&str>) -> Project {
             tags.insert(at, t);
             bad_kind = Some("duplicate".into());
         }
+        Some("two-configs") => {
+            // nothing wrong with the config itself: the directory holds a second one
+            bad_kind = Some("two-configs".into());
+        }
         _ => {}
     }
     Project { tags, rule_files, word_files, alias_files, bad: bad_kind }
@@ -357,6 +363,14 @@ pub fn render_files(p: &Project, r: &mut Rng) -> (BTreeMap<String, String>, Vec<
     let fmt = Fmt::draw(r);
     let conf_name = *r.pick(&["config.asca", "project.asca", "fam.asca"]);
     files.insert(format!("{PROJ}/{conf_name}"), render_config(p, r));
+    if p.bad.as_deref() == Some("two-configs") {
+        let other = *r.pick(&["other.asca", "backup.asca", "a.asca"]);
+        files.insert(format!("{PROJ}/{other}"), render_config(p, r));
+    } else if r.chance(1, 8) {
+        // not configs: the extension is not `asca`
+        let decoy = *r.pick(&["old.asca~", "config.asca.bak", "asca", "notes.ascaa"]);
+        files.insert(format!("{PROJ}/{decoy}"), "@nothing [\"lex\"]: \"nowhere\"\n".into());
+    }
     for (stem, groups) in &p.rule_files {
         files.insert(crate::cli::resolve(PROJ, &format!("{stem}.rsca")), c19gen::render_rsca(groups, &fmt, r));
     }
